@@ -335,13 +335,19 @@ def compare(spec, model, items, n, res, rec, reply):
                                       'model': {str(k): v for k, v in model_map.items()}})
     # B. conditional distribution, as handed to np.random.multivariate_normal
     mean, cov, size, draws = rec.mvn[0]
-    if list(c1) != list(mo['c1']):
+    # the order of the draws' labels is free as long as every later lookup is by label (DESIGN 3.3: "under
+    # some assignment of the recorded arrays to the model's roles"): compare up to that permutation
+    if sorted(c1) != sorted(mo['c1']) or len(set(c1)) != len(c1):
         return ('conditional-distribution', {'columns1 real': [str(x) for x in c1], 'model': [str(x) for x in mo['c1']]})
+    perm = [list(c1).index(x) for x in mo['c1']]
     S = model.correlation
     s22 = S.loc[idx, idx].to_numpy()
     cond22 = float(np.linalg.cond(s22))
     zmax = max(1.0, float(np.max(np.abs(vals))))
     tol = 1e-10 * max(1.0, cond22 / 1e3)
+    if mean.shape != (len(c1),) or cov.shape != (len(c1), len(c1)) or mu.shape != mean.shape or sigma.shape != cov.shape:
+        return ('conditional-distribution', f'shapes mean {mean.shape} cov {cov.shape} for {len(c1)} columns')
+    mean, mu, cov, sigma = mean[perm], mu[perm], cov[np.ix_(perm, perm)], sigma[np.ix_(perm, perm)]
     if not (close_arr(mean, mo['mean'], tol * zmax) and close_arr(mu, mo['mean'], tol * zmax)):
         return ('conditional-distribution', {'mean handed to mvn': mean.tolist(), 'returned': mu.tolist(),
                                              'model': mo['mean'].tolist(), 'tol': tol * zmax})
@@ -431,8 +437,13 @@ def run(ctx, lean):
         res, rec = real_run(model, cond, n, seed)
         tab = score_table(model, items)
         draws = rec.mvn[0][3] if rec.mvn else None
-        if draws is not None and draws.ndim != 2:
+        if draws is not None and (draws.ndim != 2 or not rec.gcd or draws.shape[1] != len(rec.gcd[0][2][2])):
             draws = None
+        if draws is not None:
+            # hand the recorded draws to the model under ITS labelling of the draw columns (sorted labels)
+            c1 = list(rec.gcd[0][2][2])
+            draws = draws[:, [c1.index(x) for x in sorted(c1)]]
+            ctx.count('columns1-order:' + ('sorted' if c1 == sorted(c1) else 'not-sorted'))
         obs.append((spec, model, items, container, n, tags, res, rec, tab, draws))
         key = (spec_key(spec), tuple((str(k), float(v)) for k, v in items), container, n)
         ctx.case(key, nontrivial=tags['wellformed'])
